@@ -203,11 +203,41 @@ class Hod(ApiImmut):
         for k in range(N):
             pk = prev if k == 0 else vec(res[k - 1])
             y = pk + H @ vec(res[k])
+            # the two-step recurrence subtracts: where x_{k-1} and op_hod x_k nearly cancel, rounding and the relative cut (1e-12 of the
+            # un-cancelled terms) are amplified by kappa = (|x_{k-1}| + |op_hod x_k|) / |x_{k-1} + op_hod x_k| in the result
+            kappa = (float(np.linalg.norm(pk)) + float(np.linalg.norm(H @ vec(res[k])))) / max(float(np.linalg.norm(y)), 1e-300)
             if nz > 0:
                 y = y / lib_norm(y, nz)
                 check_unit_norm(c, self.api, res[k + 1], nz, tags, k)
-            cmp_state(c, self.api, 'equals_dense_recurrence', res[k + 1], y, tags + (['first_step'] if k == 0 else []), {'step': k, 'h': h, 'dims': list(v['operator'].row_dims)})
+            tol_k = 1e-8 * max(1.0, kappa / 10.0)
+            got_k = vec(res[k + 1])
+            if v['threshold'] > 0 and got_k.shape == y.shape and float(np.linalg.norm(got_k - y)) > tol_k * max(float(np.linalg.norm(y)), 1e-300):
+                # "without effective truncation": a relative cut is applied by the library's LEFT sweep on cores that are not in canonical form,
+                # where the discarded local singular values are not the tensor's - even a cut of 1e-14 can remove 1e-7 of the tensor (seen on an
+                # over-parameterised previous value at order 6).  Whether the cut was effective is observed: the same call with threshold 0.
+                if self._same_call_without_cut_matches(v, k, y, tol_k):
+                    c.skip('hod_negligible_threshold_was_effective')
+                    c.events['hod_negligible_threshold_was_effective'] += 1
+                    return
+            cmp_state(c, self.api, 'equals_dense_recurrence', res[k + 1], y, tags + (['first_step'] if k == 0 else []), {'step': k, 'h': h, 'dims': list(v['operator'].row_dims), 'cancellation': kappa},
+                      tol=tol_k)
         c.sig(self.api, list(v['operator'].row_dims), N, order, nz, v['previous_value'] is not None, bool(np.iscomplexobj(A)))
+
+
+def _same_call_without_cut_matches(self, v, k, y, tol):
+    try:
+        ode = importlib.import_module('scikit_tt.solvers.ode')
+        with probe.oracle():
+            kw = {'order': v['order'], 'previous_value': v['previous_value'], 'op_hod': v['op_hod'], 'threshold': 0.0, 'max_rank': v['max_rank'], 'normalize': v['normalize'], 'progress': False}
+            r0 = ode.hod(v['operator'], v['initial_value'], v['step_size'], v['number_of_steps'], **kw)
+        # the reference for step k is built from the library's own earlier states, so compare state k+1 of the two runs where the earlier ones agree
+        g0 = vec(r0[k + 1])
+        return g0.shape == y.shape and float(np.linalg.norm(g0 - y)) <= 10 * tol * max(float(np.linalg.norm(y)), 1e-300)
+    except Exception:
+        return False
+
+
+Hod._same_call_without_cut_matches = _same_call_without_cut_matches
 
 
 class Errors(ApiImmut):
